@@ -359,7 +359,9 @@ TITLES = [("p-title", '<p class="title">T *t*</p>', "T *t*"), ("div-title", '<di
           ("p-admonition-title", '<p class="admonition-title">T3</p>', "T3"), ("none", "", "Note"),
           ("p-title-tab", '<p class="title\tbig">T4</p>', "T4"), ("p-title-second-lf", '<p class="big\ntitle">T5</p>', "T5")]
 BODIES = [([], ""), (["body *em* `c`"], "body *em* `c`\n"), (["one", "two **s**"], "one\n\ntwo **s**\n"),
-          (["- a\n- b"], "- a\n- b\n"), (["[l](u) $x$ {#id}"], "[l](u) $x$ {#id}\n")]
+          (["- a\n- b"], "- a\n- b\n"), (["[l](u) $x$ {#id}"], "[l](u) $x$ {#id}\n"),
+          # explicitly closed EMPTY elements inside the body are written back as they were
+          (["icon <i class=\"fa\"></i> tail", "<span id=\"x\"></span>"], "icon <i class=\"fa\"></i> tail\n\n<span id=\"x\"></span>\n")]
 ADM_ATTRS = [("", []), (" note", []), ("\twarning", []), ("\nwarning  extra", []), (" warning extra", []), ("", [("name", "nm")]), (" tip", [("name", "n-2"), ("id", "i")]), ("", [("title", "tt")])]
 
 
@@ -428,13 +430,14 @@ class _P(HTMLParser):
 
 FOLLOW_TAG = [">", " >", "/>", "\n>", "\t>", " a=1>", "\f>", "\r\n>"]
 FOLLOW_NOT = ["x>", "-x>", "=1>", "1>"]
-TMPL = ["<div>\n{T}\n</div>\n", "a {T} b\n", "{T}\n", "<p>\n{T}\n", "<div><b>{T}</b></div>\n", "> {T}\n", "<!-- {T} -->\n", "<span>{T}</span> and {T}\n"]
+TMPL = ["<div>\n{T}\n</div>\n", "a {T} b\n", "{T}\n", "<!-- unterminated {T}\n", "<p>\n{T}\n", "<div><b>{T}</b></div>\n", "> {T}\n", "<!-- {T} -->\n", "<span>{T}</span> and {T}\n"]
 
 
 class GfmSystem(System):
     name = "gfm"
+    chunk = 1
     description = (f"{len(NAMES)} disallowed names (+ 3 allowed names as control) x open/close x lower/upper/title case x {len(FOLLOW_TAG)} tag-forming and "
-                   f"{len(FOLLOW_NOT)} non-tag followers x {len(TMPL)} positions, gfm_only renderer")
+                   f"{len(FOLLOW_NOT)} non-tag followers x {len(TMPL)} positions (4 followers also with html_image and html_image + html_admonition enabled), gfm_only renderer")
 
     def bounds(self):
         return {"names": len(NAMES), "followers": len(FOLLOW_TAG) + len(FOLLOW_NOT), "positions": len(TMPL)}
@@ -450,12 +453,16 @@ class GfmSystem(System):
 
     def run(self, case):
         name, cs, close = case
-        cfg = MdParserConfig(gfm_only=True)
         nm = getattr(name, cs)()
         viol = []
         n = 0
         dig = []
-        for follow in FOLLOW_TAG + FOLLOW_NOT:
+        # (with html_image / html_admonition enabled the block takes the conversion path, which has several exits of its own)
+        base = MdParserConfig(gfm_only=True)
+        few = [">", "\n>", " a=1>", "x>"]
+        plan = ([(base, f) for f in FOLLOW_TAG + FOLLOW_NOT] + [(MdParserConfig(gfm_only=True, enable_extensions=["html_image"]), f) for f in few]
+                + [(MdParserConfig(gfm_only=True, enable_extensions=["html_image", "html_admonition"]), f) for f in few])
+        for cfg, follow in plan:
             for tmpl in TMPL:
                 T = "<" + close + nm + follow
                 text = tmpl.replace("{T}", T)
